@@ -117,6 +117,7 @@ impl Prop for C08 {
             Ok(EndInfo { purged_settled: settled, last_purge: run.last_purge })
         })?;
         let icfg = image_cfg(case);
+        let gap_known = crate::runner::Known::load().for_prop("C05").iter().any(|e| e.key == "previous-chunk-tail-missing/err");
         let mut sh = Shadow::default();
         let mut unlinks = 0u64;
         let mut evals = 0u64;
@@ -137,7 +138,9 @@ impl Prop for C08 {
                 let mut without = with.clone();
                 without.remove(&name);
                 let b = *bcache.entry(q + 1).or_insert_with(|| crash::bounds_at(&rec, q + 1));
-                if crash::image_class(&without).is_some() {
+                // Only the rotation-gap class, and only while it is a listed known finding of C05,
+                // is left out: such an image cannot be opened whatever the unlink did.
+                if crash::image_class(&without) == Some("previous-chunk-tail-missing") && gap_known {
                     skipped_known += 1;
                 } else {
                     evals += 2;
